@@ -2622,6 +2622,11 @@ def add_row_margin(
     pd.DataFrame
         DataFrame with an additional 'All' row containing the aggregated values.
     """
+    index = data.index
+    for lvl in range(index.nlevels):
+        if "All" in index.get_level_values(lvl):
+            # the total would overwrite (or be mistaken for) the group of that name
+            raise ValueError('Conflicting name "All" in margins: a group is labelled "All"')
     data = data.sort_index()
     index = data.index
     if index.nlevels == 1:
